@@ -119,14 +119,14 @@ def load {C : Type} (cfg : Cfg) (cks : J → C) : List (Nat × J) → Option (Ca
 
 abbrev Change := WatchEvent × Nat × J
 
-/-- A history of changes handled one after the other; emitted events in order. -/
+/-- A history of changes handled one after the other; per change the event emitted (or none). -/
 def run {C : Type} [DecidableEq C] (cfg : Cfg) (cks : J → C) :
-    Cache C → List Change → Cache C × List (Event C)
+    Cache C → List Change → Cache C × List (Option (Event C))
   | cache, [] => (cache, [])
   | cache, (ev, id, obj) :: rest =>
     let r := handle cfg cks cache ev id obj
     let rr := run cfg cks r.1 rest
-    (rr.1, r.2.toList ++ rr.2)
+    (rr.1, r.2 :: rr.2)
 
 /-! ## Spec: the property as written, no checksums -/
 namespace Spec
